@@ -434,7 +434,7 @@ func TestVerifDetectorLifetime(t *testing.T) {
 					}
 					rm.ingestRegistration(regs[0])
 				} else {
-					for _, r := range rm.registeredDecoys.getRegistrations(phantoms[op.ID]) {
+					for _, r := range vMapAs[*DecoyRegistration](rm.registeredDecoys.getRegistrations(phantoms[op.ID])) {
 						rm.MarkActive(r)
 					}
 				}
